@@ -54,12 +54,18 @@ def total_stream(tier, seed):
     for s in G.numeric_adversaries():
         out.append(("dec " + hx(s), "numeric"))
         out.append(("load " + hx(s), "numeric"))
-    depths = [10, 100, 1000, 5000, 20000, 100000] if tier == "quick" else [10, 100, 1000, 5000, 20000, 50000, 100000, 200000, 400000, 1000000]
-    for d in depths:
+    # `dec` renders and re-checks the whole tree (the span checker is cubic in the nesting depth), so deep
+    # nesting goes through `load`, whose observation for these inputs is a single word
+    for d in [10, 100, 300]:
         out.append(("dec " + hx(b"l" * d + b"e" * d), "nest:list"))
         out.append(("dec " + hx(b"d1:a" * d + b"0:" + b"e" * d), "nest:dict"))
         out.append(("dec " + hx(b"l" * d), "nest:open"))
-        out.append(("load " + hx(b"d4:info" + b"l" * d + b"e" * d + b"e"), "nest:load"))
+    depths = [1000, 5000, 20000, 100000, 400000] if tier == "quick" else [1000, 5000, 20000, 50000, 100000, 200000, 400000, 1000000, 4000000]
+    for d in depths:
+        out.append(("load " + hx(b"d4:info" + b"l" * d + b"e" * d + b"e"), "nest:list"))
+        if d <= 20000:   # the model's string-length test walks the remaining input: quadratic on nested dictionaries
+            out.append(("load " + hx(b"d4:info" + b"d1:a" * d + b"0:" + b"e" * d + b"e"), "nest:dict"))
+        out.append(("load " + hx(b"l" * d), "nest:open"))
     U = 2**64
     docs = []
     for L in [0, 1, 2, U - 1, 2**63]:
@@ -132,11 +138,11 @@ def c06_stream(tier, seed):
 PROPS = {
     "C08": dict(module="TB.Props.C08", theorems=["C08_sound", "C08_complete", "C08_accepts_iff", "C08_encode_injective", "C08_no_panic"],
                 clauses=["c08-"], stream=lambda t, s: dec_stream(t, s)),
-    "C09": dict(module="TB.Props.C09", theorems=["C09_decode_total", "C09_load_total"],
+    "C09": dict(module="TB.Props.C09", theorems=["C09_decode_total", "C09_load_total", "C09_layout_total"],
                 clauses=["c09-"], stream=total_stream),
-    "C10": dict(module="TB.Props.C10", theorems=["C10_iff"],
+    "C10": dict(module="TB.Props.C10", theorems=["C10_iff", "C10_rejects_noncanonical", "C10_exactkey", "C10_exactkey_none", "C10_loaded_wf"],
                 clauses=["c10-"], stream=load_stream),
-    "C07": dict(module="TB.Props.C07", theorems=["C07_span"],
+    "C07": dict(module="TB.Props.C07", theorems=["C07_span", "C07_indep", "C07_hex_length", "C07_hex_alphabet", "C07_hex_injective"],
                 clauses=["c07-"], stream=c07_stream),
     "C06": dict(module="TB.Props.C06", theorems=["C06_partition_multi", "C06_partition_single", "C06_every_byte_multi", "C06_every_byte_single",
                                                 "C06_closed_form_multi", "C06_closed_form_single", "C06_zero_piece_length", "C06_loaded"],
